@@ -227,6 +227,7 @@ TAttrs ==
     \cup {Attr("preTname", <<"key:l", t>>, <<>>, <<>>, FALSE) : t \in TK}
     \cup {Attr("preTname=uq", <<"key:l", t>>, <<"lit:=">>, <<"val:uq">>, TRUE) : t \in TK}
     \cup {Attr("uqT" \o eq.n, Key("l"), eq.a, <<t>>, TRUE) : t \in TK, eq \in {PlainEq, [n |-> "~w=w", a |-> <<"ws", "lit:=", "ws">>]}}
+    \cup {Attr("uqT", Key(cs), <<"lit:=">>, <<t>>, TRUE) : t \in TK, cs \in {"u", "m"}}
     \cup {Attr("uqTT", Key("l"), <<"lit:=">>, <<t, "T:simple">>, TRUE) : t \in TK}
     \cup {Attr("uqpreT", Key("l"), <<"lit:=">>, <<"val:uqpre", t>>, TRUE) : t \in TK}
     \cup UNION {{Attr(q[1] \o "T", Key("m"), <<"lit:=">>, <<q[2], t, q[2]>>, FALSE),
@@ -295,7 +296,7 @@ Init == /\ doc = <<>> /\ sp = 0
 Next ==
     /\ Len(doc) < MaxLen
     /\ IF Sample
-       THEN /\ LET c == RandomElement(Vocab) IN CanFollow(doc, c) /\ doc' = Append(doc, c)
+       THEN /\ \E c \in {RandomElement(Vocab)} : CanFollow(doc, c) /\ doc' = Append(doc, c)   \* (a LET would draw twice)
             /\ UNCHANGED sp
        ELSE \/ /\ sp = 0
                /\ \E c \in Core : CanFollow(doc, c) /\ doc' = Append(doc, c)
